@@ -1,0 +1,25 @@
+//go:build verif
+
+package websocket
+
+import (
+	"io"
+	"net"
+	"time"
+)
+
+// VerifFrameConn is the frame-level connection the transport adapter runs on (the method set of
+// gorilla's *websocket.Conn that the adapter uses).
+type VerifFrameConn interface {
+	NextReader() (messageType int, r io.Reader, err error)
+	NextWriter(messageType int) (io.WriteCloser, error)
+	Close() error
+	LocalAddr() net.Addr
+	RemoteAddr() net.Addr
+	SetReadDeadline(t time.Time) error
+	SetWriteDeadline(t time.Time) error
+}
+
+// VerifNewTransport builds the net.Conn adapter over a supplied frame source/sink, exactly as
+// TryUpgrade does after the upgrade. Used by the runtime monitors under /verif.
+func VerifNewTransport(ws VerifFrameConn) net.Conn { return newConn(ws) }
